@@ -432,13 +432,13 @@ def shrink_line(ctx, exe, line, sig):
     return " ".join([w[0], hx(bytes(b))] + rest)
 
 
-def check_lines(ctx, exe, tagged, with_model=True, label=""):
+def check_lines(ctx, exe, tagged, with_model=True, label="", fault="memory-fault"):
     lines = [l for l, _ in tagged]
     outs, crash = run_impl(ctx, exe, lines)
     if crash:
         k, detail = crash
-        ctx.violation("text-" + lines[k].split()[0] + "-memory-fault",
-                      f"C18 text: harness died (guard page / sanitizer) on `{lines[k][:200]}`: {detail}",
+        ctx.violation("text-" + lines[k].split()[0] + "-" + fault,
+                      f"C18 text: harness died ({fault}: guard page / sanitizer / assert) on `{lines[k][:200]}`: {detail}",
                       {"mode": "text", "line": lines[k]})
     mouts = ctx.driver(["c18text"], "\n".join(lines) + "\n").splitlines() if with_model else None
     tags = {}
@@ -534,14 +534,14 @@ def run_text(ctx):
                         more.append((" ".join([w[0], hx(b[:-1] + bytes([x]))] + w[2:]), "search"))
         check_lines(ctx, exe, more, with_model=False, label="_search")
         ctx.notes["search"] = f"text: {len(more)} extra cases run against the monitors after an obligation broke"
-    # assert-enabled build: note only
+    # assert-enabled build of idna.c (the library variants vlib builds keep assertions on): the valid
+    # conversions must not trip an assertion (U+10FFFF used to)
     exa = ctx.harness("c18_text_asserts", ["harness/c18_text.c"], link_lib=True, extra=["-DC18T_ASSERTS"])
     if exa is not None:
-        rc, so, se = ctx.run(exa, text="w8 f48fbfbf\n", env={"ASAN_OPTIONS": "detect_leaks=0"})
-        ctx.notes["text_assert_build_U+10FFFF"] = ("uv_wtf8_to_utf16(F4 8F BF BF) in an assert-enabled build: " +
-                                                   ("ok " + so.strip() if rc == 0 else f"aborts (rc={rc}): " + se.strip()[-160:]))
-    else:
-        ctx.broken = [b for b in ctx.broken if "c18_text_asserts" not in b[1]]
+        sub = [(l, t) for l, t in tagged if t in ("corpus", "w8-roundtrip", "u16-alloc", "u16-nul", "ta-host")]
+        sub.append(("w8 f48fbfbf", "assert"))
+        sub.append(("w8 41f48fbfbff4808080", "assert"))
+        check_lines(ctx, exa, sub, with_model=False, label="_assert_build", fault="assert-abort")
     ctx.cov["rule_text"] = ("utf8: all byte strings of length <= 2, all strings of length 3 (and 4; quick: 13 of the 28) over 28 "
                             "class representatives, boundary scalars, CESU surrogates, overlongs, every truncation; toascii: the "
                             "same short strings, host names built from ASCII / non-ASCII / mixed / empty / long labels with the 4 "
